@@ -11,7 +11,12 @@ def run(tier, seed):
     _, rep1 = netcommon.mc_and_replay(v, wd, "c01", k, False, workers=12 if tier == "quick" else 15)
     _, rep2 = netcommon.mc_and_replay(v, wd, "c04b", 2 if tier == "quick" else 3, False)
     _, rep3 = netcommon.mc_and_replay(v, wd, "c01d", 3, False)
-    vlib.require(rep1["nontrivial"] > 100 and rep2["nontrivial"] > 50, "replay too small")
+    # match-all rules fused with patterned siblings (optimised engines must stay monotone), and rule addition
+    # through Blocker::add_filter (histories: the rule added one at a time must have the effect it has in a batch)
+    _, rep4 = netcommon.mc_and_replay(v, wd, "c05", 2, False)
+    from checks import enginecommon
+    _, rep5, _ = enginecommon.histories(v, wd, "blocker", 3 if tier == "quick" else 4)
+    vlib.require(rep1["nontrivial"] > 100 and rep2["nontrivial"] > 50 and rep5["nontrivial"] > 30, "replay too small")
     v.assumptions += ["tag differences between a rule and its badfilter twin are outside the domain (as the property states)",
                       "monotonicity is checked relationally on real engines (engine(L) vs engine(L+x)) for every rule x of every exported list, and on the Ideal by TLC for every resolution of unspecified hits"]
     nl, rq = (6, 40) if tier == "quick" else (80, 80)
